@@ -356,7 +356,44 @@ def impl(case):
         for row, H in zip(vo, hs):
             row.append(bool(sg0 == SynGraph(H, c)))
             row.append(bool(cg0 == CanonicalGraph(H, c)))
-    return [[out, pat], vo]
+    return [[[out, pat], vo], _rule_vo(case)]
+
+
+RULE_VO_MAX_NODES = 6
+
+
+def _rule_hs(case):
+    """The graphs against which SynRule.__eq__ is exercised: one renumbered presentation and one mutant (small graphs only)."""
+    if len(case["g"]["nodes"]) > RULE_VO_MAX_NODES:
+        return []
+    ren = [a["g"] for a in case.get("alts", []) if not a["same_ids"]][:1]
+    return ren + list(case.get("others", []))[:1]
+
+
+def _mk_rule(rc, left, right, c):
+    """A SynRule assembled from three fragment graphs: the tail of SynRule.__init__ (wrap + canonical_smiles) without the
+    ITS decomposition, so that __eq__/_rc_signature run on graphs of the model domain."""
+    from synkit.Rule.syn_rule import SynRule
+    from synkit.Graph.syn_graph import SynGraph
+    r = SynRule.__new__(SynRule)
+    r._name, r._canon_enabled, r._implicit_h, r._canonicaliser = "r", True, False, c
+    r.rc, r.left, r.right = SynGraph(rc, c), SynGraph(left, c), SynGraph(right, c)
+    r.canonical_smiles = (r.left.signature, r.right.signature)
+    return r
+
+
+def _rule_vo(case):
+    G0 = _nx(case["g"])
+    hs = [_nx(h) for h in _rule_hs(case)]
+    out = [[] for _ in hs]
+    for be in ("generic", "nauty"):
+        c = _canoniser(be)
+        A = _mk_rule(G0, G0, G0, c)
+        for row, H in zip(out, hs):
+            row.append(bool(A == _mk_rule(H, G0, G0, c)))
+            row.append(bool(A == _mk_rule(G0, H, G0, c)))
+            row.append(bool(A == _mk_rule(G0, G0, H, c)))
+    return out
 
 
 # ------------------------------------------------------------------ model encoder
@@ -397,7 +434,8 @@ def coq_case(case):
     for p in ps:
         G = _nx(p)
         items.append("(%s, %s, %s)" % (_cgraph(p), _cranks(_wl_ranks(G), p), _cranks(_morgan_ranks(G), p)))
-    return "run_case2 %s %s" % (clist(items), clist([_cgraph(h) for h in case.get("others", [])]))
+    return "run_case3 %s %s %s" % (clist(items), clist([_cgraph(h) for h in case.get("others", [])]),
+                                   clist([_cgraph(h) for h in _rule_hs(case)]))
 
 
 # ------------------------------------------------------------------ property oracle
@@ -619,7 +657,7 @@ def distribution(cases, obss):
         if _n_aut_gt1_or_tied(c["g"]):
             tied += 1
         try:
-            for row in o[0][0]:
+            for row in o[0][0][0]:
                 refines += len(row[3][2])
                 leaves += len(row[3][3])
                 if len(row[3][3]) > 1:
@@ -856,7 +894,7 @@ def gen_cases(tier, rng):
     else:
         pick = range(len(four))
     for i in pick:
-        cases.append(_graph_case("iso4", four[i], rng, nalts=2 if tier == "quick" else 3, nothers=1))
+        cases.append(_graph_case("iso4", four[i], rng, nalts=2, nothers=1))
     # whole-family soundness: every pair of distinct classes must get distinct signatures
     for n in (2, 3, 4):
         byms = {}
@@ -869,11 +907,11 @@ def gen_cases(tier, rng):
     for nm, g in _families():
         fam.append(_graph_case("family", g, rng, nalts=3 if tier == "quick" else 6, nothers=1, name="family/" + nm))
     # seeded random graphs
-    nrand = 250 if tier == "quick" else 2500
+    nrand = 250 if tier == "quick" else 2000
     for _ in range(nrand):
         cases.append(_graph_case("random", _random_graph(rng, 9), rng, nalts=2, nothers=2))
     if tier == "thorough":
-        for _ in range(3000):
+        for _ in range(2000):
             g = GG.random_graph(rng, 5, p_edge=rng.choice([0.3, 0.5, 0.7]), elements=("C", "O"), orders=(1, 2), charges=(0,), hcounts=(0, 1))
             cases.append(_graph_case("rand5", _norm_graph(g, amap=False), rng, nalts=2, nothers=1))
     # random batches: relabelled copies mixed with mutants (nauty: iso <=> equal signature)
